@@ -22,7 +22,7 @@ PROPERTY = 'C14'
 LEVEL = 'model_checking'
 BOUNDS = {'quick': {'strings': 'all strings (no length bound)', 'send_instant': 'any real in [0, 30] s over a '
                     'scripted life cycle: init_async 5 s, stop at 10 s, stop_async 3 s',
-                    'stop causes': ['shutdown', 'abort', 'handler error', 'ctrl abort event', 'ctrl shutdown event',
+                    'stop causes': ['shutdown', 'abort', 'handler error', 'ctrl abort event', 'ctrl shutdown event', 'cancel() of the simulation task',
                                     'failing evaluation inside the simulation task (+0..3 loop iterations offset)']},
           'thorough': {'strings': 'all strings (no length bound)', 'send_instant': 'as quick, plus two sends per run',
                        'stop causes': ['shutdown', 'abort', 'handler error', 'ctrl abort event', 'ctrl shutdown event']}}
@@ -214,11 +214,15 @@ def scen_phase(env, cause, two):
                 pass
         elif cause == 'calc-error':
             src.event('set', value='boom')       # the failing evaluation happens inside the simulation task
+        elif cause == 'cancel-task':
+            holder['simtask'].cancel()           # the way run_forever()'s docstring, edzed.run() and SIGTERM stop it
         else:
             trig.event('set', value=1)
 
+    holder = {}
+
     async def main():
-        simtask = asyncio.create_task(circ.run_forever())
+        simtask = holder['simtask'] = asyncio.create_task(circ.run_forever())
         # phase: task created, not yet running
         try:
             ev.send(2)
@@ -391,7 +395,7 @@ def shards(tier):
                     'params': {'a_state': a_state}})
     for why in ('eager', 'abort-first', 'unresolved'):
         out.append({'name': f'never started: {why}', 'scenario': 'scen_never_started', 'params': {'why': why}})
-    for cause in ('shutdown', 'abort', 'handler-error', 'ctrl-abort', 'ctrl-shutdown', 'calc-error'):
+    for cause in ('shutdown', 'abort', 'handler-error', 'ctrl-abort', 'ctrl-shutdown', 'calc-error', 'cancel-task'):
         out.append({'name': f'phase {cause}', 'scenario': 'scen_phase', 'params': {'cause': cause, 'two': False}})
         if tier == 'thorough':
             out.append({'name': f'phase {cause} x2', 'scenario': 'scen_phase', 'params': {'cause': cause, 'two': True},
